@@ -660,7 +660,11 @@ def run(ctx):
     ctx.rule = ("requested lifetimes (ms) through LT.set_value_in_millis and through the float path of "
                 "BasicHeader.initialize_with_mib_request_and_rhl, all 256 lifetime codes x 3 hop values through the "
                 "decoder, originated packets of a real Router for every kind x requested hop limit x MIB default, and "
-                "received packets over (RHL, MHL) pairs; a case is non-trivial when the wire lifetime is non-zero / the "
+                "received packets over (RHL, MHL) pairs; audit round: requests in seconds that are not whole milliseconds, "
+                "Basic Header variants around every code, every origination path of the router (LS request / retransmission / "
+                "reply, GUC released by the LS reply, greedy GBC / GAC, area shapes; MIB default lifetimes 1..999 s; secured "
+                "branches) and GN-DATA.indications of every delivering type x lifetime code (also through the secured receive "
+                "branch); a case is non-trivial when the wire lifetime is non-zero / the "
                 "packet was emitted / the code decoded; distinct by input tuple")
     for k in ctx.known:
         w = k["witness"]
